@@ -128,3 +128,72 @@ def reset_final_size_guarded(ctx, rule, instance):
                     cond.append(D.render(b2.desc)[:60])
         ctx.check(not cond, rule, instance + '_unconditional', rs, br.where(), 'skipped only when the final size is already known (then equality is enforced)',
                   'the lower-bound check on the final size can be skipped under %s' % cond)
+    # the equality path of Recv::reset trusts a KNOWN final size to be >= end: every site that records one must enforce that
+    ing = ctx.pfn('Recv::ingest')
+    size_stores = [w.bb for w in field_writes(F, 'recv::RecvState', 'size', crate='quinn_proto') if F.root_of(w.body).id == ing.id]
+    ctx.floor(rule, instance + '_fin_size_stores', len(size_stores), 1)
+    guard_error(ctx, rule, instance + '_fin_not_below_received_data', ing,
+                lambda o, a, b: o == 'Lt' and a[0] == 'bin' and a[1] == 'Add' and D.has_field(a, 'offset') and b[0] == 'field' and b[2] == 'end',
+                code='FINAL_SIZE_ERROR', protect=size_stores, what='fin && end < self.end')
+
+
+def foreign_address_dropped_before_processing(ctx, rule, instance):
+    """Connection::process_payload contains `panic!("packets from unknown remote should be dropped by clients")` (and a
+    debug_assert for servers without migration): they are unreachable only because Connection::handle_event drops every
+    datagram from an address other than path.remote when the side may not migrate.  The guard must be exactly
+    `remote != path.remote && !remote_may_migrate()` -> return, with no further condition that lets a datagram through."""
+    F = ctx.facts
+    pp = ctx.pfn('Connection::process_payload')
+    panics = [c for c in pp.calls() if (c.f or '').endswith('panicking::panic_fmt') or (c.f or '').endswith('panicking::panic')]
+    expl = [c for c in panics if any('panic' in m for m in (c.mac or []))]
+    ctx.info(rule, '%d explicit panic site(s) in process_payload depend on the drop guard in handle_event' % len(expl))
+    he = ctx.pfn('Connection::handle_event')
+    prot = [c.bb for c in he.calls_to('Connection::handle_decode')]
+    ctx.floor(rule, instance + '_processing_sites', len(prot), 1)
+    mig = [br for br in branches(F, he) if D.has_call(br.desc, 'ConnectionSide::remote_may_migrate')]
+    def is_path_remote(d):
+        return d[0] == 'field' and d[2] == 'remote' and d[1][0] == 'field' and d[1][2] == 'path' and d[1][1][0] == 'param'
+
+    def is_event_remote(d):
+        # the `remote` field of the Datagram event (whole value, no projection / call on it)
+        return d[0] == 'field' and d[2] == 'remote' and D.has_param(d, name='event') and not D.calls_in(d)
+    ne = guard_edges(ctx, he, lambda o, a, b: o == 'Ne' and ((is_path_remote(a) and is_event_remote(b)) or (is_path_remote(b) and is_event_remote(a))))
+    ok = bool(mig) and bool(ne)
+    for br in mig:
+        inner, neg = peel_not(br.desc)
+        t_no = br.target(1 if neg else 0)        # remote_may_migrate() == false
+        if any(p in he.reachable_from(t_no, avoid=[br.bb]) for p in prot):
+            ok = False
+    for br, truth, tgt in ne:
+        # from the address-mismatch edge, processing is reachable only through the remote_may_migrate() test
+        if any(p in he.reachable_from(tgt, avoid=[m.bb for m in mig]) for p in prot):
+            ok = False
+    ctx.check(ok, rule, instance, he, he.where(), 'remote != path.remote && !remote_may_migrate() -> return before handle_decode, no other way through',
+              'a datagram from a foreign address can reach packet processing although migration is not permitted: the client-side panic! in process_payload becomes reachable from the network')
+
+
+def no_fatal_error_before_authentication(ctx, rule, instance):
+    """packet_crypto::decrypt_packet_body: a connection-closing transport error (Err(Some(TransportError))) may only be
+    produced for a packet whose AEAD tag verified.  Everything before / without a successful PacketKey::decrypt must be
+    a silent discard (Err(None)): header bits (reserved bits, key phase) are only covered by header protection, so a
+    forged or corrupted datagram could otherwise close the connection."""
+    F = ctx.facts
+    b = ctx.pfn('packet_crypto::decrypt_packet_body')
+    dec = b.calls_to('PacketKey::decrypt')
+    ctx.floor(rule, instance + '_decrypt_sites', len(dec), 1)
+    errs = [c for c in b.calls() if (c.f or '').find('transport_error::Error::') >= 0]
+    ctx.floor(rule, instance + '_fatal_error_sites', len(errs), 2)
+    # the success edge of `decrypt(..)?`: blocks reachable after the call through the Continue arm of its Try::branch
+    for c in errs:
+        before = b.reachable_from(0, avoid=[d_.bb for d_ in dec])
+        ok = c.bb not in before
+        # and not on the failure side of the decryption result
+        for d_ in dec:
+            for br in branches(F, b):
+                if br.desc[0] == 'discr' and contains_site(br.desc[1], d_):
+                    # variant 1 of the Result / ControlFlow::Break carries the error
+                    fail_t = br.target(1)
+                    if fail_t is not None and c.bb in b.reachable_from(fail_t, avoid=[br.bb]) and c.bb not in b.reachable_from(br.target(0), avoid=[br.bb]):
+                        ok = False
+        ctx.check(ok, rule, instance, b, c.where(), '%s only after the AEAD tag verified' % short(c.f),
+                  'a fatal %s can be raised for a packet that has not been authenticated (before or without a successful PacketKey::decrypt)' % short(c.f))
